@@ -250,10 +250,12 @@ pub fn gen_config(rng: &mut Rng, samples: &[String], p: &CallSetParams) -> Confi
         None
     } else {
         // large cohorts get at most two populations: the spectrum has (2n+1)^d cells
+        let mut many = false;
         let npop = if n > 40 {
             rng.range(1, 2)
-        } else if n >= 9 && n <= 12 && rng.chance(1, 12) {
-            // many small populations (3^9 .. 5^10 cells at most)
+        } else if n >= 9 && n <= 12 && rng.chance(1, 6) {
+            // many small populations (3^9 .. 5^10 cells at most), every one of them used
+            many = true;
             rng.range(9, n.min(10))
         } else {
             rng.range(1, 4.min(n))
@@ -275,10 +277,11 @@ pub fn gen_config(rng: &mut Rng, samples: &[String], p: &CallSetParams) -> Confi
         };
         let mut idx: Vec<usize> = (0..n).collect();
         rng.shuffle(&mut idx);
-        let k = rng.range(1, n);
+        let k = if many { n } else { rng.range(1, n) };
         let mut list: Vec<(String, Option<String>)> = idx[..k]
             .iter()
-            .map(|&i| (samples[i].clone(), rng.pick(&labels).clone()))
+            .enumerate()
+            .map(|(j, &i)| (samples[i].clone(), if many { labels[j % npop].clone() } else { rng.pick(&labels).clone() }))
             .collect();
         if list.is_empty() {
             list.push((samples[0].clone(), None));
@@ -519,6 +522,10 @@ pub fn gen_callset(rng: &mut Rng, p: &CallSetParams) -> (CallSet, Config) {
         w[K_EXACT as usize] = 0;
         w[K_INSUFF as usize] = 0;
     }
+    // low-diversity stretches: runs of sites that differ from their predecessor in one sample
+    if w[K_NEAR_COPY as usize] > 0 && rng.chance(1, 8) {
+        w[K_NEAR_COPY as usize] = w.iter().sum::<u32>().max(1);
+    }
     let mut recs = vec![];
     let mut contig = 0usize;
     // positions usually start low; now and then close to the 32-bit limits
@@ -543,7 +550,12 @@ pub fn gen_callset(rng: &mut Rng, p: &CallSetParams) -> (CallSet, Config) {
                     rec.gts = prev.gts.clone();
                     rec.nalt = prev.nalt;
                     for _ in 0..rng.range(1, 2) {
-                        let col = rng.below(((samples.len() + 1) / 2) as u64) as usize;
+                        // any sample; now and then the first one listed (the first axis)
+                        let first = cfg.sel.as_ref().and_then(|l| l.first()).and_then(|(s, _)| samples.iter().position(|x| x == s));
+                        let col = match first {
+                            Some(c) if rng.chance(1, 3) => c,
+                            _ => rng.below(samples.len() as u64) as usize,
+                        };
                         rec.gts[col] = (*rng.pick(&["0/1", "1/1", "0/0", "1|0"])).to_string();
                     }
                 }
